@@ -576,3 +576,89 @@ def translate_table_sum(src, cls, fname, getter, prefix='py_'):
     return ('Definition %s (getZ : Z -> Z -> Z -> Z -> Z) %s (v_%s : Z -> Z) : Z :=\n'
             '  let v_%s := getZ %s %s in zsum (fun v_%s => v_%s v_%s (v_%s v_%s)) (0) %s.\n'
             % (name, sig, occ, tab, targs[0], targs[1], iv, tab, iv, occ, iv, hi))
+
+
+# ---------------------------------------------------------------------------------------------
+# the stopping rule of a polynomial propagator:  for order in range(lo, limit): ... accumulate ... test ... break  else: raise
+def translate_propagator_loops(src, cls, fname, prefix='py_'):
+    """the for/else loops of <cls>.<fname> (one per `algo` branch) -> records of LoopSkel.v:
+    first order, break rule (first small term / two consecutive small terms), whether the term is accumulated before
+    the test, whether the comparison is strict, whether exhausting the range raises"""
+    tree = ast.parse(src)
+    fdef = None
+    for n in tree.body:
+        if isinstance(n, ast.ClassDef) and n.name == cls:
+            for m in n.body:
+                if isinstance(m, ast.FunctionDef) and m.name == fname:
+                    fdef = m
+    if fdef is None:
+        raise Unsupported('method not found')
+    loops = {}
+    for node in ast.walk(fdef):
+        if isinstance(node, ast.If) and isinstance(node.test, ast.Compare) and isinstance(node.test.left, ast.Name) \
+                and node.test.left.id == 'algo' and len(node.test.comparators) == 1 \
+                and isinstance(node.test.comparators[0], ast.Constant) and isinstance(node.test.ops[0], ast.Eq):
+            algo = node.test.comparators[0].value
+            fors = [st for st in node.body if isinstance(st, ast.For)]
+            if len(fors) != 1:
+                continue
+            loop = fors[0]
+            pre = node.body[:node.body.index(loop)]
+            loops[algo] = (loop, pre)
+    out = ''
+    status = {}
+    for algo in ('taylor', 'chebyshev'):
+        if algo not in loops:
+            raise Unsupported('no loop for ' + algo)
+        loop, pre = loops[algo]
+        if not (isinstance(loop.target, ast.Name) and isinstance(loop.iter, ast.Call) and isinstance(loop.iter.func, ast.Name)
+                and loop.iter.func.id == 'range' and len(loop.iter.args) == 2 and isinstance(loop.iter.args[0], ast.Constant)
+                and isinstance(loop.iter.args[1], ast.Name)):
+            raise Unsupported('loop header of ' + algo)
+        lo = loop.iter.args[0].value
+        limit_name = loop.iter.args[1].id
+        if limit_name not in ('max_expansion', 'expansion'):
+            raise Unsupported('loop limit ' + limit_name)
+        raises = len(loop.orelse) == 1 and isinstance(loop.orelse[0], ast.Raise)
+        body = loop.body
+        texts = [ast.unparse(st) for st in body]
+        # where is the accumulation, where the test
+        acc_ix = [k for k, t in enumerate(texts) if t.startswith('time_evol.ax_plus_y(coeff,')]
+        if len(acc_ix) != 1:
+            raise Unsupported('accumulation in ' + algo)
+        acc_arg = texts[acc_ix[0]][len('time_evol.ax_plus_y(coeff,'):].strip(' )')
+        test_re = None
+        rule = None
+        test_ix = None
+        for k, st in enumerate(body):
+            cmp_ = None
+            if isinstance(st, ast.If) and isinstance(st.test, ast.Compare) and len(st.body) == 1 and isinstance(st.body[0], ast.Break) \
+                    and not st.orelse:
+                cmp_, rule, test_ix = st.test, 'BreakOnSmall', k
+            elif isinstance(st, ast.Assign) and isinstance(st.value, ast.Compare) and len(st.targets) == 1 \
+                    and isinstance(st.targets[0], ast.Name):
+                # small = TEST ; if small and previous_small: break ; previous_small = small   (previous_small = False before)
+                v = st.targets[0].id
+                if k + 2 < len(body) and ast.unparse(body[k + 1]) == 'if %s and previous_%s:\n    break' % (v, v) \
+                        and ast.unparse(body[k + 2]) == 'previous_%s = %s' % (v, v) \
+                        and any(ast.unparse(p) == 'previous_%s = False' % v for p in pre) and k + 3 == len(body):
+                    cmp_, rule, test_ix = st.value, 'BreakOnTwoConsecutiveSmall', k
+            if cmp_ is not None:
+                if len(cmp_.ops) != 1 or ast.unparse(cmp_.comparators[0]) != 'accuracy':
+                    raise Unsupported('comparison in ' + algo)
+                if ast.unparse(cmp_.left) != '%s.norm() * numpy.abs(coeff)' % acc_arg:
+                    raise Unsupported('tested quantity in %s: %s' % (algo, ast.unparse(cmp_.left)))
+                test_re = {ast.Lt: 'true', ast.LtE: 'false'}.get(type(cmp_.ops[0]))
+                if test_re is None:
+                    raise Unsupported('relation in ' + algo)
+                break
+        if rule is None:
+            raise Unsupported('no break test in ' + algo)
+        if rule == 'BreakOnSmall' and test_ix != len(body) - 1:
+            raise Unsupported('statements after the test in ' + algo)
+        name = '%s%s_%s_skel' % (prefix, fname, algo)
+        out += ('Definition %s : skel := {| sk_lo := %d; sk_rule := %s; sk_add_before_test := %s; sk_strict := %s; '
+                'sk_else_raises := %s |}.\n' % (name, lo, rule, 'true' if acc_ix[0] < test_ix else 'false', test_re,
+                                                'true' if raises else 'false'))
+        status[algo] = 'skel'
+    return out, status
